@@ -41,7 +41,7 @@ def stmt_pool(rng, internal_bias):
     pool = [
         "?m(X)", "?v(X)", f"+m({k})", f"+m[({k}), ({k + 1})]", "-m(1001)", "-m(2001)", f"-m({k})",
         "-m(X) <- m(X), X > 0", f"+w{k}(X) <- m(X)", "w(X) <- m(X)", f"+s{k}(a: int)", ".rel", ".rule", ".kg", ".kg list",
-        ".kg use g1", ".kg use g2", ".kg use default", f".kg create n{k}", ".kg drop g2", ".kg drop g1", ".rule drop v", ".rule clear v",
+        ".kg use g1", ".kg use g2", ".kg use default", f".kg create n{k}", ".kg create g1", ".kg create g2", ".kg drop g2", ".kg drop g1", ".rule drop v", ".rule clear v",
         ".rule remove v 1", ".compact", "// just a comment", "-v", "-m", ".session clear", ".status",
         f"-m(X), +m({k}) <- m(X), X > 1000", ".kg acl grant g2 eve owner", ".kg acl list g2", ".user list",
         ".apikey list", ".user create mallory pw admin", ".user role eve admin", ".kg acl revoke g1 eve",
